@@ -177,6 +177,19 @@ pub fn bytes_sessions(ctx: &mut Ctx) {
         let enc = z.len();
         let mut z = z;
         if k % 2 == 1 { let extra = ctx.rng.range(1, 40); z.extend(ctx.rng.bytes(extra)); }
+        // the input offset at which the window is full for the first time (dry run, whole input, one
+        // window of room): sessions whose first chunk ends within the decoder's look-ahead of that point
+        // (the inner call then stops for lack of room with its input used up or nearly so)
+        {
+            let mut st = InflateState::new_boxed(if zlib { DataFormat::Zlib } else { DataFormat::Raw });
+            let mut out = vec![0u8; 32768];
+            let r = inflate(&mut st, &z, &mut out, MZFlush::None);
+            let _ = st.verif_take_core_trace();
+            if r.status.is_ok() && r.bytes_written == 32768 {
+                let deltas: &[i64] = if ctx.quick() { &[0, 1, 2, 3, 5, 8] } else { &[-2, -1, 0, 1, 2, 3, 4, 5, 6, 7, 8, 9] };
+                for &d in deltas { let cut = (r.bytes_consumed as i64 + d).clamp(1, z.len() as i64) as usize; streams.push((z.clone(), zlib, "lapcut", cut, Some(plain.clone()), Some(enc))); }
+            }
+        }
         streams.push((z, zlib, "laps", 0, Some(plain), Some(enc)));
     }
     // a stored block that starts within a few bytes of the end of the window (the parked-byte exits)
@@ -188,7 +201,7 @@ pub fn bytes_sessions(ctx: &mut Ctx) {
     }
     for (z, zlib, kind, past, plain, enc) in streams {
         // the first-call Finish shortcut, with room around the plaintext size
-        {
+        if kind != "lapcut" {
             let full = miniz_oxide::inflate::decompress_to_vec_with_limit(if zlib && z.len() >= 2 { &z[2..] } else { &z[..] }, 1 << 20).map(|v| v.len()).unwrap_or(300);
             for room in [0usize, 1, full.saturating_sub(1), full, full + 1, full + 1000] {
                 let id = ctx.id();
@@ -201,7 +214,7 @@ pub fn bytes_sessions(ctx: &mut Ctx) {
                 ctx.count("iff_calls"); ctx.count(&format!("iff_{}_{}", kind, code));
             }
         }
-        for rep in 0..(if ctx.quick() { 3 } else { 6 }) {
+        for rep in 0..(if kind == "lapcut" { 1 } else if ctx.quick() { 3 } else { 6 }) {
             let seed = ctx.rng.next();
             ifb_session_enc(ctx, &z, zlib, kind, past, plain.as_deref(), rep, seed, enc);
         }
@@ -228,7 +241,7 @@ pub fn ifb_session_enc(ctx: &mut Ctx, z: &[u8], zlib: bool, kind: &str, past: us
     let mut delivered: Vec<u8> = vec![];
     // styles 6, 7: a fixed output size per call chosen so that the number of bytes handed over reaches
     // 32767 / 32768 / 32769 modulo the window size exactly at the end of a call (32767 = 7 * 4681 = 31 * 1057 = 151 * 217)
-    let style = if kind == "edge" { 2 + rng.below(4) } else if kind == "laps" && rep == 1 { 6 } else if kind == "laps" && rep >= 2 { 6 + rng.below(2) } else { rng.below(4) };
+    let style = if kind == "lapcut" { 5 } else if kind == "edge" { 2 + rng.below(4) } else if kind == "laps" && rep == 1 { 6 } else if kind == "laps" && rep >= 2 { 6 + rng.below(2) } else { rng.below(4) };
     let fixed_room = if rep == 1 { *rng.pick(&[32767usize, 4681, 1057, 217]) } else { *rng.pick(&[32767usize, 32766, 32769, 16383, 4681, 1057, 217, 65535]) };
     let mut first = true;
     let mut idle = 0;
@@ -286,7 +299,7 @@ pub fn replay_ifbs(ctx: &mut Ctx, lines: &[String]) {
     for l in lines { if let Some(rest) = l.strip_prefix("IFBS ") { let kv = crate::kv(rest);
         let z = crate::tx::unhex(&kv["data"]);
         let plain = if kv["plain"] == "?" { None } else { Some(crate::tx::unhex(&kv["plain"])) };
-        let kind: &'static str = match kv["kind"].as_str() { "laps" => "laps", "edge" => "edge", "valid" => "valid", "trailing" => "trailing", "truncated" => "truncated", _ => "corrupt" };
+        let kind: &'static str = match kv["kind"].as_str() { "laps" => "laps", "lapcut" => "lapcut", "edge" => "edge", "valid" => "valid", "trailing" => "trailing", "truncated" => "truncated", _ => "corrupt" };
         let enc = kv.get("enc").and_then(|e| e.parse::<usize>().ok());
         ifb_session_enc(ctx, &z, kv["zlib"] == "1", kind, kv["past"].parse().unwrap_or(0), plain.as_deref(), kv["rep"].parse().unwrap_or(0), kv["seed"].parse().unwrap_or(1), enc); } }
 }
